@@ -116,6 +116,11 @@ def _extract_seqdata(fname, linelen, start, index=(None, None),
                     i = 0
                 elif linelen != 0:
                     i += (i // (linelen - nlec)) * nlec
+                # a start index beyond the record must not reach into the next record
+                k = f.find(b'>', offset)
+                recend = (len(f) if k == -1 else k) - offset
+                if i > recend:
+                    i = recend
                 if j is None:
                     # need to find end of record
                     k = f.find(b'>', offset + i)
